@@ -185,11 +185,12 @@ class Parser:
             for depend in menu_options["depends_on"]:
                 expr = self.parse_expression(depend)
                 menunode.dep = self.kconfig._make_and(menunode.dep, expr)
-        if menu_options["visible_if"]:  # visible if
-            menunode.visibility = self.kconfig._make_and(
-                menunode.visibility,
-                self.parse_expression(menu_options["visible_if"][0]),
-            )
+        if menu_options["visible_if"]:  # visible if (several lines are ANDed, as for depends on)
+            for visible_if in menu_options["visible_if"]:
+                menunode.visibility = self.kconfig._make_and(
+                    menunode.visibility,
+                    self.parse_expression(visible_if),
+                )
 
         self.kconfig.menus.append(menunode)
         self.get_children(menunode, (self.file_stack[-1], lineno(loc, s)))
